@@ -294,7 +294,8 @@ static inline int fn(ec_curve_p curve, uint8_t *pub_key_x, uint8_t *pub_key_y,		
     size_t pub_key_size, ec_point_p point)						\
 __CPROVER_requires(VF_CURVE_IN(curve) && VF_POINT_INIT(point) && point->infinity == 0)	\
 __CPROVER_requires(SPAN(pub_key_x, pub_key_size) && SPAN(pub_key_y, VF_EC_BYTES(curve)))	\
-__CPROVER_assigns(VF_EC_POINT_FRAME(point))						\
+__CPROVER_assigns(pub_key_x != NULL && pub_key_size == 1: point->infinity)		\
+__CPROVER_assigns(pub_key_x != NULL && pub_key_size > 1: VF_BN_FRAME(&point->x), VF_BN_FRAME(&point->y))	\
 GHOST											\
 __CPROVER_ensures((pub_key_x == NULL || pub_key_size == 0) ==> __CPROVER_return_value == EINVAL)	\
 __CPROVER_ensures((pub_key_x != NULL && pub_key_size == 1) ==>				\
